@@ -7,13 +7,14 @@
    x.Bytes() of the shared point: ANY byte list of ANY length (shorter than the 65-byte share when the
    big integer has leading zeros).
 
-   `run pub dh false` is the machine of the code as it is now (`false`: next() never merges a Packet
-   that carries key material into a Multi container; `true` is next() before that fix).
+   `run pub dh false false` is the machine of the code as it is now (first `false`: next() never
+   merges a Packet that carries key material into a Multi container; second `false`: the idle tick
+   of a client inside a channel is a plain keep-alive; `true` = the code before the respective fix).
 
    FULL STATEMENT THAT THE CODE DOES NOT SATISFY (kept here on purpose):
 
      forall h k0 s0,                      (* every history, replies may be lost anywhere *)
-       let s := run pub dh false h (init pub k0 s0) in
+       let s := run pub dh false false h (init pub k0 s0) in
        waiting s = false -> s_reg (sv s) = true ->
        c_share (cl s) = s_share (sv s) /\ c_next (cl s) = None
 
@@ -97,11 +98,11 @@ Theorem C06_share_agree_handshake :
   forall (priv point : Type) (pub : priv -> point) (dh : priv -> point -> list Z),
   (forall a b, dh a (pub b) = dh b (pub a)) ->
   forall k0 s0 k q,
-  let s := run pub dh false [Hello k; RekeyRecv q; HelloReply] (init pub k0 s0) in
+  let s := run pub dh false false [Hello k; RekeyRecv q; HelloReply] (init pub k0 s0) in
   settled pub s /\
   c_share (cl s) = fill_shared zero_share (dh k (pub s0)) /\
   s_share (sv s) = fill_shared zero_share (dh s0 (pub k)).
-Proof. intros priv point pub dh H. exact (share_agree_handshake priv point pub dh H false). Qed.
+Proof. intros priv point pub dh H. exact (share_agree_handshake priv point pub dh H false false). Qed.
 Print Assumptions C06_share_agree_handshake.
 
 (* MAIN: every admissible history from the very beginning, by induction over the event list *)
@@ -109,11 +110,11 @@ Theorem C06_share_agree_all_histories :
   forall (priv point : Type) (pub : priv -> point) (dh : priv -> point -> list Z),
   (forall a b, dh a (pub b) = dh b (pub a)) ->
   forall h k0 s0,
-  safe pub dh false h (init pub k0 s0) = true ->
-  let s := run pub dh false h (init pub k0 s0) in
+  safe pub dh false false h (init pub k0 s0) = true ->
+  let s := run pub dh false false h (init pub k0 s0) in
   waiting s = false -> s_reg (sv s) = true ->
   c_share (cl s) = s_share (sv s) /\ c_next (cl s) = None.
-Proof. intros priv point pub dh H. exact (share_agree_safe priv point pub dh H false). Qed.
+Proof. intros priv point pub dh H. exact (share_agree_safe priv point pub dh H false false). Qed.
 Print Assumptions C06_share_agree_all_histories.
 
 (* the same with the coarser condition "no reply is lost at all" (every event but ReplyLost) *)
@@ -121,11 +122,11 @@ Theorem C06_share_agree_lossless :
   forall (priv point : Type) (pub : priv -> point) (dh : priv -> point -> list Z),
   (forall a b, dh a (pub b) = dh b (pub a)) ->
   forall h k0 s0,
-  lossless false h = true ->
-  let s := run pub dh false h (init pub k0 s0) in
+  lossless false false h = true ->
+  let s := run pub dh false false h (init pub k0 s0) in
   waiting s = false -> s_reg (sv s) = true ->
   c_share (cl s) = s_share (sv s) /\ c_next (cl s) = None.
-Proof. intros priv point pub dh H. exact (share_agree_lossless priv point pub dh H false). Qed.
+Proof. intros priv point pub dh H. exact (share_agree_lossless priv point pub dh H false false). Qed.
 Print Assumptions C06_share_agree_lossless.
 
 (* after every subsequent re-key: any admissible continuation of any settled state is settled
@@ -134,10 +135,10 @@ Theorem C06_share_agree_rekey :
   forall (priv point : Type) (pub : priv -> point) (dh : priv -> point -> list Z),
   (forall a b, dh a (pub b) = dh b (pub a)) ->
   forall h s,
-  settled pub s -> safe pub dh false h s = true ->
-  let s' := run pub dh false h s in
-  waiting s' = false -> s_reg (sv s') = true -> settled pub s'.
-Proof. intros priv point pub dh H. exact (share_agree_rekey priv point pub dh H false). Qed.
+  settled pub s -> safe pub dh false false h s = true ->
+  let s' := run pub dh false false h s in
+  waiting s' = false -> s_reg (sv s') = true -> chn s' = None -> settled pub s'.
+Proof. intros priv point pub dh H. exact (share_agree_rekey priv point pub dh H false false). Qed.
 Print Assumptions C06_share_agree_rekey.
 
 (* one complete re-key: both new shares are computed over the OLD share, the client's private key
@@ -147,13 +148,13 @@ Theorem C06_rekey_round :
   (forall a b, dh a (pub b) = dh b (pub a)) ->
   forall s k q,
   settled pub s ->
-  let s' := run pub dh false [RekeySend k; RekeyRecv q; ReplyRecv] s in
+  let s' := run pub dh false false [RekeySend k; RekeyRecv q; ReplyRecv] s in
   settled pub s' /\
   c_share (cl s') = fill_shared (c_share (cl s)) (dh k (pub (s_priv (sv s)))) /\
   s_share (sv s') = fill_shared (s_share (sv s)) (dh (s_priv (sv s)) (pub k)) /\
   c_priv (cl s') = k /\
   c_seen s' = deliver q (c_seen s).
-Proof. intros priv point pub dh H. exact (rekey_round priv point pub dh H false). Qed.
+Proof. intros priv point pub dh H. exact (rekey_round priv point pub dh H false false). Qed.
 Print Assumptions C06_rekey_round.
 
 (* a re-key whose announcement could not be written leaves the sender on the old key (and the
@@ -161,32 +162,72 @@ Print Assumptions C06_rekey_round.
 Theorem C06_write_fail_reverts :
   forall (priv point : Type) (pub : priv -> point) (dh : priv -> point -> list Z),
   forall (s : st priv point) k,
-  waiting s = false -> c_next (cl s) = None ->
-  let s' := run pub dh false [RekeySend k; WriteFail] s in
+  waiting s = false -> chn s = None -> c_next (cl s) = None ->
+  let s' := run pub dh false false [RekeySend k; WriteFail] s in
   cl s' = cl s /\ sv s' = sv s /\ waiting s' = false /\ upw s' = None /\ dnw s' = None.
-Proof. intros priv point pub dh. exact (write_fail_reverts priv point pub dh false). Qed.
+Proof. intros priv point pub dh. exact (write_fail_reverts priv point pub dh false false). Qed.
 Print Assumptions C06_write_fail_reverts.
 
 (* a reply lost while no announcement is pending changes no key, whether or not the server saw the Packet *)
 Theorem C06_reply_lost_harmless :
   forall (priv point : Type) (pub : priv -> point) (dh : priv -> point -> list Z),
   forall (s : st priv point) p,
-  waiting s = false -> c_next (cl s) = None ->
-  (let s' := run pub dh false [DataSend p; ReplyLost] s in cl s' = cl s /\ sv s' = sv s /\ waiting s' = false) /\
-  (forall q, let s' := run pub dh false [DataSend p; RekeyRecv q; ReplyLost] s in
+  waiting s = false -> chn s = None -> c_next (cl s) = None ->
+  (let s' := run pub dh false false [DataSend p; ReplyLost] s in cl s' = cl s /\ sv s' = sv s /\ waiting s' = false) /\
+  (forall q, let s' := run pub dh false false [DataSend p; RekeyRecv q; ReplyLost] s in
              cl s' = cl s /\ sv s' = sv s /\ waiting s' = false).
-Proof. intros priv point pub dh. exact (reply_lost_harmless priv point pub dh false). Qed.
+Proof. intros priv point pub dh. exact (reply_lost_harmless priv point pub dh false false). Qed.
 Print Assumptions C06_reply_lost_harmless.
 
 (* under agreement every payload encrypted by one side decrypts to the original on the other *)
 Theorem C06_payload_roundtrip :
   forall (priv point : Type) (pub : priv -> point) (dh : priv -> point -> list Z),
   forall (s : st priv point) p q,
-  waiting s = false -> s_reg (sv s) = true -> c_next (cl s) = None -> agree s ->
-  let s' := run pub dh false [DataSend p; RekeyRecv q; ReplyRecv] s in
+  waiting s = false -> chn s = None -> s_reg (sv s) = true -> c_next (cl s) = None -> agree s ->
+  let s' := run pub dh false false [DataSend p; RekeyRecv q; ReplyRecv] s in
   s_seen s' = deliver p (s_seen s) /\ c_seen s' = deliver q (c_seen s) /\ cl s' = cl s /\ sv s' = sv s.
-Proof. intros priv point pub dh. exact (payload_roundtrip priv point pub dh false). Qed.
+Proof. intros priv point pub dh. exact (payload_roundtrip priv point pub dh false false). Qed.
 Print Assumptions C06_payload_roundtrip.
+
+(* ---- channels --------------------------------------------------------------------------- *)
+(* pick(): whatever is queued and whatever `i` is, a client inside a channel never reaches
+   keyNextSync (the client-channel case returns first); outside a channel the idle tick may draw *)
+Theorem C06_pick_no_rekey_in_channel :
+  (forall queued i, pick_model queued true true i <> PDraw) /\ tick_draws true = false /\ tick_draws false = true.
+Proof. exact (conj pick_no_rekey_in_channel tick_never_draws_in_channel). Qed.
+Print Assumptions C06_pick_no_rekey_in_channel.
+
+(* EVERY payload exchanged inside a channel decrypts to the original: for ALL admissible histories
+   (any number of channel starts, traffic both ways, idle ticks, channel ends, re-keys and
+   re-registrations before and after channels, failed writes, harmless reply losses), in whatever
+   state the history ends, if a channel is open there then the connection's key copy equals the
+   share of both Sessions, no re-key is pending, and a payload sent either way arrives unchanged *)
+Theorem C06_channel_payload_roundtrip :
+  forall (priv point : Type) (pub : priv -> point) (dh : priv -> point -> list Z),
+  (forall a b, dh a (pub b) = dh b (pub a)) ->
+  forall h k0 s0,
+  safe pub dh false false h (init pub k0 s0) = true ->
+  let s := run pub dh false false h (init pub k0 s0) in
+  forall ck, chn s = Some ck ->
+  ck = c_share (cl s) /\ ck = s_share (sv s) /\ c_next (cl s) = None /\
+  (forall p, s_seen (step pub dh false false (ChanUp p) s) = deliver p (s_seen s)) /\
+  (forall q, c_seen (step pub dh false false (ChanDown q) s) = deliver q (c_seen s)).
+Proof. intros priv point pub dh H. exact (channel_payload_roundtrip priv point pub dh H false false). Qed.
+Print Assumptions C06_channel_payload_roundtrip.
+
+(* (e) FIXED by 28f32da (rekey-during-channel): regression witness against an idle tick that
+       draws a re-key inside a channel (second flag true), and the same history on the code as it is *)
+Theorem C06_rekey_in_channel_refuted_before_fix :
+  (let s := toy_run_chan chan_rekeyed toy_init in
+   shares_differ s = false /\ chn s <> Some (s_share (sv s)) /\ chn s <> None /\
+   s_seen s <> [[7; 8; 9]; [1; 2; 3]] /\ c_seen s <> [[10; 11; 12]; [4; 5; 6]] /\
+   safe toy_pub toy_dh false true chan_rekeyed toy_init = false) /\
+  (let s := toy_run chan_rekeyed toy_init in
+   shares_differ s = false /\ chn s = Some (s_share (sv s)) /\
+   s_seen s = [[7; 8; 9]; [1; 2; 3]] /\ c_seen s = [[10; 11; 12]; [4; 5; 6]] /\
+   safe toy_pub toy_dh false false chan_rekeyed toy_init = true).
+Proof. exact rekey_in_channel_refuted_before_fix. Qed.
+Print Assumptions C06_rekey_in_channel_refuted_before_fix.
 
 (* ---- what the code does NOT satisfy (witnesses in a toy commutative agreement, vm_compute) ---- *)
 (* (a) known finding rekey-reply-lost-after-server-processed: one exchange garbled in both
@@ -194,7 +235,7 @@ Print Assumptions C06_payload_roundtrip.
 Theorem C06_reply_lost_after_processing_refuted :
   let s := toy_run lost_after toy_init in
   s_seen s <> [[1; 2; 3]] /\ c_seen s <> [[4; 5; 6]] /\ shares_differ s = false /\
-  safe toy_pub toy_dh false lost_after toy_init = false.
+  safe toy_pub toy_dh false false lost_after toy_init = false.
 Proof. exact reply_lost_after_processing_refuted. Qed.
 Print Assumptions C06_reply_lost_after_processing_refuted.
 
@@ -207,7 +248,7 @@ Theorem C06_announcement_lost_refuted :
   c_share (cl s) <> c_share (cl s0) /\ s_share (sv s) = s_share (sv s0) /\
   shares_differ (toy_run undelivered_later toy_init) = true /\
   s_seen (toy_run undelivered_later toy_init) <> [[1; 2; 3]; [1; 2; 3]] /\
-  safe toy_pub toy_dh false undelivered toy_init = false.
+  safe toy_pub toy_dh false false undelivered toy_init = false.
 Proof. exact announcement_lost_refuted. Qed.
 Print Assumptions C06_announcement_lost_refuted.
 
@@ -216,7 +257,7 @@ Theorem C06_reregister_reply_lost_refuted :
   let s := toy_run reregister_lost toy_init in
   waiting s = false /\ s_reg (sv s) = true /\ shares_differ s = true /\ c_share (cl s) = zero_share /\
   s_seen s <> [[1; 2; 3]] /\ shares_differ (toy_run reregister_lost_later toy_init) = true /\
-  safe toy_pub toy_dh false reregister_lost toy_init = false.
+  safe toy_pub toy_dh false false reregister_lost toy_init = false.
 Proof. exact reregister_reply_lost_refuted. Qed.
 Print Assumptions C06_reregister_reply_lost_refuted.
 
@@ -233,17 +274,18 @@ Print Assumptions C06_batched_rekey_refuted_before_fix.
 
 (* ---- non-vacuity ------------------------------------------------------------------------ *)
 (* the hypotheses are satisfiable: a commutative agreement exists whose outputs are shorter AND
-   longer than the share, and a 38-event history with every kind of event (handshake, traffic,
-   re-keys, a failed write, two harmless reply losses, a queued-behind re-key, a server restart
+   longer than the share, and a 49-event history with every kind of event (handshake, traffic,
+   re-keys, a failed write, two harmless reply losses, a queued-behind re-key, a channel with traffic both ways and an idle tick, a server restart
    with a new key, re-registration) is admissible, ends settled on a non-zero share, and every
    payload arrived unchanged *)
 Example C06_nonvacuous :
   (forall a b, toy_dh a (toy_pub b) = toy_dh b (toy_pub a)) /\
   (length (toy_dh 11 7) < share_size)%nat /\ (share_size < length (toy_dh 23 3))%nat /\
-  safe toy_pub toy_dh false busy_history toy_init = true /\
+  safe toy_pub toy_dh false false busy_history toy_init = true /\
   (let s := toy_run busy_history toy_init in
    waiting s = false /\ s_reg (sv s) = true /\ shares_differ s = false /\ is_synced (c_share (cl s)) = true /\
-   c_seen s = [[6; 7]; [2]; [1]; [8]] /\ s_seen s = [[4; 5]; [1; 2]; [7]; [9; 9]]).
+   chn s = None /\
+   c_seen s = [[6; 7]; [6; 6]; [2]; [1]; [8]] /\ s_seen s = [[4; 5]; [5]; [5; 5]; [1; 2]; [7]; [9; 9]]).
 Proof.
   split; [exact toy_comm|]. split; [vm_compute; lia|]. split; [vm_compute; lia|]. exact busy_history_ok.
 Qed.
